@@ -162,6 +162,23 @@ impl IpDefragBuf {
         self.end.is_some() && 1 == self.sections.len() && 0 == self.sections[0].start
     }
 
+    /// Verification hook: builds a buffer in an arbitrary internal state
+    /// (used to check `add` as an inductive step from any valid state).
+    #[cfg(feature = "verif-hooks")]
+    pub fn verif_from_parts(
+        ip_number: IpNumber,
+        data: Vec<u8>,
+        sections: Vec<IpFragRange>,
+        end: Option<u16>,
+    ) -> IpDefragBuf {
+        IpDefragBuf {
+            ip_number,
+            data,
+            sections,
+            end,
+        }
+    }
+
     /// Consume the [`IpDefragBuf`] and return the buffers.
     #[inline]
     pub fn take_bufs(self) -> (Vec<u8>, Vec<IpFragRange>) {
